@@ -257,10 +257,21 @@ package cache
 // ---- put: the commit order of a store. The index entry (which promises an output id and a
 // size) is written only after the data file with exactly that id and size is in place, so a
 // crash between the two leaves at worst an unreferenced data file, never a promise without data.
+//@ extern fmt.Sprintf(format string, a []any) string
+//@   pure
+//@ extern time.Now() time.Time
+//@ extern (time.Time).UnixNano() int64
+//@   pure
+//@ extern (*os.File).WriteString(s string) (n int, err error)
+//@   modifies ghost.disk, ghost.foff
+//@   ensures sameExcept(disk, old(disk), fname(recv))
+// putIndexEntry touches only the index file of the action id it is given
 //@ func (*DiskCache).putIndexEntry
-//@   trusted
+//@   requires c != nil
+//@   nosafe   all
 //@   may_panic
 //@   modifies heap, ghost.disk, ghost.foff
+//@   ensures  [only] sameExcept(disk, old(disk), c.fileName(id, "a"))
 //@ func (*DiskCache).put
 //@   uses     shaspec, eq32
 //@   requires c != nil
